@@ -51,11 +51,24 @@ func (r *stateRun) open(end bool, prio *xh2.PriorityParam, extra ...xhpack.Heade
 	}
 	p.Read = 0
 	p.HoldUntil = func() bool { return cs.released || e.readerDone }
-	// a handler counts from its start until it returns or the client cancels its stream (the
-	// goroutine of a cancelled stream may linger; the limit is about streams)
+	// a handler counts from its start until it returns or its stream is cancelled by the client
+	// or reset by the server (the goroutine of such a stream may linger; the limit is about streams)
 	p.OnStart = func() {
 		if cs.reset {
 			return
+		}
+		// a stream the server itself has closed by now (it answered an illegal frame with
+		// RST_STREAM) does not count either, although its handler may still be returning
+		if sc := e.sc; sc != nil {
+			for _, o := range r.streams {
+				if _, open := sc.streams[o.id]; o.counted && !open {
+					o.counted = false
+					r.running--
+				}
+			}
+			if _, open := sc.streams[cs.id]; !open {
+				return
+			}
 		}
 		cs.counted = true
 		r.running++
